@@ -36,6 +36,9 @@ def resp_cfg(label, dev=(), maxchunks=2, invs=INVS, live=True):
 def request_bytes(rq, uri="/r", extra=b""):
     method = b"HEAD" if rq["head"] else b"GET"
     conn = {"none": b"", "close": b"Connection: close\r\n", "keep": b"Connection: keep-alive\r\n"}[rq["conn"]]
+    if rq.get("fold"):
+        # the same field folded after the colon (accepted only with permit_obsolete_folding; it means the same)
+        conn = conn.replace(b": ", b":\r\n " if rq["conn"] == "close" else b":\r\n\t")
     return method + b" " + uri.encode() + b" HTTP/1.%d\r\nHost: h\r\n" % (rq["ver"] - 10) + conn + extra + b"\r\n"
 
 
@@ -51,6 +54,8 @@ def worker_for(kind, wk, app):
     kw = {"keepalive": 2 if wk["ka"] else 0}
     if wk.get("nosendfile"):
         kw["sendfile"] = False           # --no-sendfile: files are copied through the response writer
+    if wk.get("fold"):
+        kw["permit_obsolete_folding"] = True
     if kind == "gthread" and wk.get("full"):
         kw.update(worker_connections=1, threads=1)
     cfg = drv.make_cfg(**kw)
@@ -148,7 +153,21 @@ def _file_iter(environ, ap, chunks):
     else:
         f = _io.BytesIO(data)
     f.seek(ap.get("off", 0))
+    if ap.get("dribble"):
+        # a file-like object whose read(n) may return fewer bytes than asked for before the end (a pipe, a socket file)
+        f = _Dribble(f, ap["dribble"])
     return environ["wsgi.file_wrapper"](f)
+
+
+class _Dribble:
+    def __init__(self, f, k):
+        self.f, self.k = f, k
+
+    def read(self, n=-1):
+        return self.f.read(self.k if n is None or n < 0 or n > self.k else n)
+
+    def close(self):
+        self.f.close()
 
 
 def exchange(rq, wk, ap, send_fail_at=None):
@@ -269,6 +288,9 @@ def c02(ctx):
         prod = rng.choice(["iter", "write", "file", "filenofd"])
         if prod == "file" and rng.random() < 0.3:
             wk["nosendfile"] = True
+        dribble = rng.choice([1, 7, 1000]) if prod == "filenofd" and rng.random() < 0.3 else 0
+        if rq["conn"] != "none" and rng.random() < 0.15:
+            rq["fold"] = wk["fold"] = True
         nch = rng.randint(0, 5)
         sizes = [rng.choice([0, 0, 1, 2, 5, 100, 8192, 8193, 20000]) for _ in range(nch)]
         total = sum(sizes)
@@ -280,6 +302,8 @@ def c02(ctx):
         clchoice = rng.random()
         cl = NOCL if clchoice < 0.4 else produced if clchoice < 0.85 else rng.choice([0, 1, max(0, produced - 1), produced + 3])
         ap = {"status": status, "cl": cl, "prod": prod, "chunks": sizes, "off": off}
+        if dribble:
+            ap["dribble"] = dribble
         x = rng.random()
         if x < 0.15:
             # the application fails at a chosen point (before / after start_response, before the first byte,
@@ -498,7 +522,9 @@ VALUES = {
     "nul": ["a\x00b", "\x00", "n" * 8200 + "\x00"],
     # (also far into a long value: validating only a prefix of the value is not enough)
     "crlf_inject": ["a\r\nX-Injected: yes", "a\r\n\r\n<html>", "a\r\nSet-Cookie: x=y", "x" * 8190 + "\r\nSet-Cookie: forged=1",
-                    "y" * 70000 + "\r\n\r\n<html>"],
+                    "y" * 70000 + "\r\n\r\n<html>",
+                    # shaped like obsolete line folding (CR LF followed by a blank)
+                    "first\r\n second", "a\r\n\tX-Injected: yes", "a\r\n \r\n  Set-Cookie: sid=forged", "a \r\n b"],
     "ctl": ["a" + c + "b" for c in CTLS],
     "obs": ["caf\xe9", "\x80\xff"],
     "nonlatin1": ["cafĀ", "€"],
@@ -569,7 +595,11 @@ def c09_exchange(case, rng, kind="sync"):
                 # the application catches the refusal and carries on with the response it had started
         return [body]
 
-    cfg = drv.make_cfg(keepalive=2)
+    # the switches that relax REQUEST parsing say nothing about what an application may put into a response
+    relaxed = rng.random() < 0.3
+    cfg = drv.make_cfg(keepalive=2, **({"permit_obsolete_folding": True, "strip_header_spaces": True, "header_map": "dangerous",
+                                        "permit_unconventional_http_method": True, "permit_unconventional_http_version": True,
+                                        "casefold_http_method": True} if relaxed else {}))
     w = drv.make_worker(kind, cfg, app)
     sock = drv.FakeSock([request_bytes({"ver": 11, "head": False, "conn": "none"})])
     holder["sock"] = sock
@@ -635,7 +665,8 @@ def c09_exchange(case, rng, kind="sync"):
     ev.append(head)
     tr = {"c1": case["c1"], "c2": case["c2"] if case["exc"] != "none" else {"st": "ok", "hs": []},
           "exc": case["exc"], "between": case["between"], "ev": ev}
-    meta = {"case": case, "st1": st1, "hs1": hs1, "st2": st2, "hs2": hs2, "kind": kind, "wire": wire[:300].decode("latin-1")}
+    meta = {"case": case, "st1": st1, "hs1": hs1, "st2": st2, "hs2": hs2, "kind": kind, "wire": wire[:300].decode("latin-1"),
+            "relaxed": relaxed}
     return tr, meta
 
 
@@ -708,6 +739,8 @@ def c09(ctx):
             detail = ",".join(sorted(set("%s/%s" % (h["n"], h["v"]) for h in cc["hs"]
                                          if h["n"] in ("sp_in", "colon_in", "cr_in", "lf_in", "nul_in", "empty", "obs_in", "paren")
                                          or h["v"] in ("cr", "lf", "nul", "crlf_inject"))))
+        if m.get("relaxed"):
+            detail += ",relaxed-request-parsing"
         ctx.violation("C09/%s/%s" % (v, detail), "%s: status=%r headers=%r second=%r/%r exc=%s wire=%r"
                       % (v, m["st1"], m["hs1"], m["st2"], m["hs2"], c["exc"], m["wire"][:200]), {"trace": t, "meta": m})
     for t, m in list(zip(traces, metas))[:2] + list(zip(traces, metas))[-1:]:
@@ -835,6 +868,9 @@ def c19_real_requests(wk, loglevel, big, logcfg=None):
             s.rewrite_config(ROOT_LOGCONFIG % {"path": logp})
         else:
             s.cmd[-1:-1] = ["--access-logfile", logp]
+        if logcfg == "statsd":
+            # statsd configured (the Statsd logger class replaces the default one) but not reachable when the server starts
+            s.cmd[-1:-1] = ["--statsd-host", "unix://" + os.path.join(s.dir, "no-statsd.sock"), "--statsd-prefix", "v"]
         i = s.cmd.index("--log-level")
         s.cmd[i + 1] = loglevel
         s.start()
@@ -879,7 +915,7 @@ def c19_real_requests(wk, loglevel, big, logcfg=None):
                 except (ValueError, IndexError):
                     pass
             ev = {"kind": "completed", "nrec": len(mine), "status": status, "bytes": nbytes, "wstatus": st, "wbody": nbody, "maxlines": 1}
-            out.append((ev, {"kind": wk, "fmt": "%(s)s|%(B)s|%(U)s|%(q)s", "what": "real-%s-loglevel=%s%s" % ("bigfile" if key == "3" else "plain", loglevel, ",handler-on-root-logger" if logcfg else ""),
+            out.append((ev, {"kind": wk, "fmt": "%(s)s|%(B)s|%(U)s|%(q)s", "what": "real-%s-loglevel=%s%s" % ("bigfile" if key == "3" else "plain", loglevel, {"root": ",handler-on-root-logger", "statsd": ",statsd-unreachable"}.get(logcfg, "")),
                              "records": mine[:3], "wire": "", "escaped": None, "ncalls": 1, "request": "GET n=" + key}))
         return out
     finally:
@@ -1142,6 +1178,14 @@ def c19(ctx):
                 tok = base64.b64encode(u + b":pw")
                 req = b"GET /u HTTP/1.1\r\nHost: h\r\nAuthorization: Basic " + tok + b"\r\n\r\n"
                 add(kind, fmt, req, drv.AppSpec(headers=[("Content-Length", "5")]), "completed", "authuser")
+    # 3b. Authorization values that are not base64 at all: bytes beyond ASCII, control bytes, wrong padding, other schemes
+    evil_tokens = [b"dXNlcjpw\xe9", b"\xff\xfe\xfd", b"dXNlcjpw" + "\u00e9".encode(), b"dXNl cjpw", b"====", b"dXNlcjpw=", b"*", b"dXNlcjpw\x0b",
+                   b"\xe2\x84\xaa", b""]
+    for tok in evil_tokens:
+        for kind in kinds:
+            for scheme in (b"Basic ", b"basic ", b"Bearer ", b"Basic"):
+                req = b"GET /u HTTP/1.1\r\nHost: h\r\nAuthorization: " + scheme + tok + b"\r\n\r\n"
+                add(kind, rng.choice([DEFAULT_FMT, "%(u)s", "%(s)s"]), req, drv.AppSpec(headers=[("Content-Length", "5")]), "completed", "authtoken")
     # 4. the application call completes but its iterable's close() raises / a late start_response(exc_info) after
     #    the headers went out (with an empty first item) is swallowed by the application
     for kind in kinds:
@@ -1160,9 +1204,9 @@ def c19(ctx):
     for ev, info in _parallel(plan, lambda a, i: c19_real_idle(a)):
         traces.append({"ev": [ev]})
         metas.append(info)
-    plan2 = [("eventlet", "debug", True), ("gthread", "error", True), ("sync", "warning", False), ("gthread", "info", False, "root")] if ctx.quick else \
+    plan2 = [("eventlet", "debug", True), ("gthread", "error", True), ("sync", "warning", False), ("gthread", "info", False, "root"), ("sync", "info", False, "statsd")] if ctx.quick else \
         [(wk, lv, True) for wk in ("sync", "gthread", "gevent", "eventlet") for lv in ("debug", "info", "warning", "critical")] + \
-        [(wk, "info", False, "root") for wk in ("sync", "gthread", "gevent", "eventlet")]
+        [(wk, "info", False, lc) for wk in ("sync", "gthread", "gevent", "eventlet") for lc in ("root", "statsd")]
     for res in _parallel(plan2, lambda a, i: c19_real_requests(a[0], a[1], a[2], a[3] if len(a) > 3 else None)):
         for ev, info in res:
             traces.append({"ev": [ev]})
